@@ -75,9 +75,14 @@ class DataSet:
             if address_end > from_pos:
                 address = line[from_pos:address_end]
                 from_pos = address_end
+            elif address_end < 0:
+                # no (more) values in line
+                return (-1, address, values)
 
             while from_pos > 0:
                 value_end_pos = line.find(")", from_pos)
+                if value_end_pos < 0:
+                    raise ValueError("Found value without end parenthesis.")
                 values.append(DataSetValue.parse(line[from_pos + 1 : value_end_pos]))
                 from_pos = value_end_pos + 1
 
